@@ -1,10 +1,10 @@
 #!/bin/bash
 # usage: tools/sweep.sh <quick|thorough> <seed>...   (run from the /verif checkout or a snapshot of it)
-# Runs every property's check at the given seeds; evidence and replays go to ./sweepout, not to /verif.
+# Runs every property's check (or those named in $PROPS) at the given seeds; evidence and replays go to ./sweepout, not to /verif.
 cd "$(dirname "$0")/.."
 tier=$1; shift
 for s in "$@"; do
-  for p in C01 C02 C03 C04 C05 C06 C07 C08 C09 C10 C11 C12 C13 C14 C15 C16 C17 C18 C19 C20; do
+  for p in ${PROPS:-C01 C02 C03 C04 C05 C06 C07 C08 C09 C10 C11 C12 C13 C14 C15 C16 C17 C18 C19 C20}; do
     out=$(VERIF_SEED=$s VERIF_OUT=$PWD/sweepout ./check $p $tier 2>&1)
     rc=$?
     echo "rc=$rc $(echo "$out" | grep -E "^$p " | cut -c1-230)"
